@@ -363,7 +363,7 @@ pub fn generate(seed: u64, n: usize, thorough: bool, corpus: Option<&str>) -> Ve
     }
 
     // --- random programs over the expression sub-language (random spelling, parentheses, spacing)
-    let core = GenCfg { calls: false, odd_words: false, bools: true };
+    let core = GenCfg { calls: false, odd_words: false, bools: true, blocks: false };
     let mut made = 0;
     while made < n {
         made += 1;
@@ -384,7 +384,7 @@ pub fn generate(seed: u64, n: usize, thorough: bool, corpus: Option<&str>) -> Ve
     }
 
     // --- declarations, blocks, iterations: templates with random expressions in their slots
-    let slot = GenCfg { calls: false, odd_words: false, bools: false };
+    let slot = GenCfg { calls: false, odd_words: false, bools: false, blocks: false };
     let subst = |e: &str| e.replace('x', "x_i").replace('y', "v[i]").replace('z', "n").replace('w', "x_{i + 1}").replace('a', "q").replace('b', "len(v)").replace('c', "x_0").replace('d', "m[i][0]");
     let m = if thorough { n / 2 } else { n / 6 };
     for _ in 0..m {
